@@ -7,7 +7,7 @@ hooks_commits=subprocess.run(['git','-C','/repo','log','--format=%h','--reverse'
 C={
  "C18":("exploration","complete enumeration of a committed golden corpus written by the pinned commit (read side) + bounded exhaustive history enumeration with an independent reader of the documented format for segments, index files and metadata (write side)",
         "finite corpus (14 directories) generated once from the pinned commit; gob metadata pinned by field names and by the corpus"),
- "C16":("exploration","exhaustive enumeration of a boundary alphabet of key/value lengths x record positions x segment capacities with byte-exact round-trip oracles (now / after recovery / after restart), and of over-long probes with forged hash collisions and shared prefixes with atomic-rejection oracles",
+ "C16":("exploration","exhaustive enumeration of a boundary alphabet of key/value lengths x record positions x segment capacities with byte-exact round-trip oracles (now / after recovery / after restart / after deleting the key again and a second recovery), and of over-long probes with forged hash collisions and shared prefixes with atomic-rejection oracles",
         "boundary alphabet, not the full 2^16 x 2^29 range; listed in the evidence rule"),
  "C14":("model_checking","bounded exhaustive operation-sequence enumeration after a fixed set of reads, on a harness file system in mmap-lifetime mode (memory handed out by File.Slice poisoned on every write/truncate/close) and on the real fs.OSMMap/fs.OS with faults turned into panics; returned-slice-stability and input-slice-independence oracles",
         "depth bound as reported; simfs poison mode models the strictest FileSystem the interface allows"),
@@ -31,7 +31,7 @@ C={
         "all words <= depth d over 16 letters from 6 engineered index states x 3 segment configs, every step checked; bounded depth/alphabet, simfs file system"),
  "C02":("model_checking","bounded exhaustive enumeration of operation sequences with Close/Open at every position; reference map, op-log 'no recovery ran' oracle, independent decoder replay",
         "same space as C01 plus the Reopen letter; sessions on simfs (OS/OSMMap alternation is part of C17)"),
- "C03":("fault_enumeration","exhaustive process-crash image enumeration: every FS-call boundary and every 512-aligned torn write of the last operation of every history word <= d, each image recovered by the real Open",
+ "C03":("fault_enumeration","exhaustive process-crash image enumeration: every FS-call boundary and every 512-aligned torn write of the last operation of every history word <= d (two alphabets: equal-sized records; records of two sizes, one larger than a whole segment), each image recovered by the real Open",
         "process-crash model as stated in the property; bounded history depth"),
  "C04":("fault_enumeration","exhaustive enumeration of epoch chains (history, crash image) x (history, crash image), including every crash point inside the recovering Open; cumulative acknowledged-state oracle",
         "process-crash model; chain length 2 (quick) / 3 (thorough); bounded word depth per epoch"),
